@@ -23,6 +23,10 @@ Predict(pos, s) == [r \in AllRules |-> IF M!TPanics(r, pos, s) THEN "!P" ELSE St
 \* every identifier is also written as a raw identifier (r#ident): serde_derive reads it with the prefix removed (unraw) before
 \* any rule is applied, so the required name is the same for both spellings
 Spellings == {"plain", "raw"}
+\* a field is also judged inside a struct variant: with the rule on the variant, with the rule as the enum's rename_all_fields,
+\* and with the rule on the variant while the enum's rename_all / rename_all_fields name another rule (the variant's own rule wins;
+\* the enum's rename_all never reaches fields): the required name is the same in all of them (SerdeAttrs!RuleForField)
+FieldContexts == {"struct", "variant-rule", "enum-fields-rule", "variant-rule-over-enum-rules"}
 \* model-level comparison M = P (counted, not judged)
 Diverges(pos, r, s) == Defined(r, pos, s) /\ (M!TPanics(r, pos, s) \/ M!TRename(r, pos, s) # Apply(r, pos, s))
 
